@@ -61,7 +61,14 @@ def k6(tier):
              models=['m_transit.c', 'm_throw.c', 'm_env.c'], libmodels=['m_string.c', 'm_stl.c'], unwind=24, unwindset=['strlen.0:40'], byteloops=True, cdefs=['VLL_PTRCELLS'], tier=tier, timeout=280,
              bounds='2 cached thread contexts, each exited or alive, with 0..1 queued record (real log_statement) and 0..1 buffered event (all symbolic)',
              what='K6: real _cleanup_invalidated_thread_contexts hands a context back for reclamation iff its thread exited AND its queue is empty AND its ring is empty (never with buffered statements), all such contexts in one call, each once; the others stay cached in order')
-QUERIES += [k4('quick'), k1b('quick'), k6('quick')]
+def k7(tier):
+    return Q('K7_update_then_cleanup', 'C03_k3.cpp', 'h_update_cleanup', defines=['NCTX=2', 'TEBCAP=2'], cuts=TE_CUTS, forbid=[x for x in K3F if '_cleanup_invalidated_thread_contexts' not in x],
+             hooks=[r'^_ZN5quill2v96detail13BackendWorker32_dispatch_transit_event_to_sinksE=vh_dispatch', r'^_ZNK5quill2v96detail20ThreadContextManager26has_invalid_thread_contextEv=vh_has_invalid',
+                    r'^_ZN5quill2v96detail20ThreadContextManager40remove_shared_invalidated_thread_contextEPKNS1_13ThreadContextE=vh_remove_ctx'],
+             models=['m_transit.c', 'm_throw.c', 'm_env.c'], libmodels=['m_string.c', 'm_stl.c'], unwind=24, unwindset=['strlen.0:40'], byteloops=True, cdefs=['VLL_PTRCELLS'], tier=tier, timeout=280,
+             bounds='registry of 2 thread contexts (static storage), each exited or alive, with 0..1 queued record and 0..1 buffered event; the cache holds a prefix of them (0..2) before the refresh; new-context flag raised whenever a context is not cached yet, else symbolic',
+             what='K7: real _update_active_thread_contexts_cache + ThreadContextManager::new_thread_context_flag/for_each_thread_context, then real _cleanup_invalidated_thread_contexts: after a refresh every registered context is cached in order (none skipped), so every exited and drained context is handed back for reclamation by the next clean-up and the others stay')
+QUERIES += [k4('quick'), k1b('quick'), k6('quick'), k7('quick')]
 QUERIES += [k3(2, 0, 'quick'), k3(1, 1, 'quick'), k3(1, 2, 'quick', wide=0), k3(2, 2, 'thorough', timeout=1700, wide=0), k3(1, 2, 'thorough', timeout=1700)]
 # NOTE: harness/C03_backend.cpp + harness/bk.h (kernels K1/K3 on the real BackendWorker) are kept in the tree but NOT registered:
 # at 1-2 contexts x 1-2 records CBMC needed > 60 GB / did not finish in 10 min (see DESIGN.md section 7).
